@@ -45,13 +45,17 @@ where
         return Err(());
     }
     let scale = AsPrimitive::<F>::as_(free_weight.as_()) / normalization;
+    if !scale.is_finite() {
+        // `normalization` is too small to normalize the probabilities in floating point.
+        return Err(());
+    }
 
     let mut cumulative_float = F::zero();
     let mut accumulated_slack = Probability::zero();
 
     Ok(probabilities.iter().map(move |probability_float| {
         // Clamping to `free_weight` is a no-op unless `F` has too few mantissa bits to
-        // resolve `free_weight` or `scale` overflowed to infinity.
+        // resolve `free_weight`.
         let left_cumulative =
             core::cmp::min((cumulative_float * scale).as_(), free_weight) + accumulated_slack;
         cumulative_float = cumulative_float + *probability_float;
@@ -88,6 +92,10 @@ where
         return Err(());
     }
     let scale = remaining_free_weight.into() / normalization;
+    if !scale.is_finite() {
+        // `normalization` is too small to normalize the probabilities in floating point.
+        return Err(());
+    }
 
     let mut slots = probabilities
         .iter()
@@ -97,7 +105,7 @@ where
                 return Err(());
             }
             let prob: f64 = prob.into();
-            // Clamping is a no-op unless `scale` overflowed to infinity.
+            // Clamping is a no-op up to rounding errors.
             let current_free_weight = core::cmp::min((prob * scale).as_(), remaining_free_weight);
             remaining_free_weight = remaining_free_weight - current_free_weight;
             let weight = current_free_weight + Probability::one();
